@@ -77,7 +77,7 @@ class Engine:
         s.E = ir2c.Emit(s.mod, set())
         s.parsed = {}; s.faddr = {}; s.addrf = {}; s.gaddr = {}
         s.stubs = StubMap(); s.max_steps = max_steps; s.files = list(files); s.called = set(); s.stub_hits = {}; s.total_steps = 0; s.base_state = None
-        s.query_timeout_ms = 20000; s.unknowns = 0
+        s.query_timeout_ms = 20000; s.unknowns = 0; s.fast_logic = bool(int(os.environ.get('VERIF_QFUFBV', '0')))
         s.solver_time = 0.0; s.queries = 0; s.nfork = 0
         s.typeids = {}
         na = 0x1000
@@ -294,7 +294,8 @@ class Engine:
         return r == z3.sat
     def model(s, st, extra=None):
         t0 = time.time()
-        sol = z3.Solver(); sol.set('timeout', s.query_timeout_ms)
+        sol = z3.SolverFor('QF_UFBV') if s.fast_logic else z3.Solver()
+        sol.set('timeout', s.query_timeout_ms)
         for c in st.pc: sol.add(c)
         if extra is not None: sol.add(extra)
         r = sol.check(); s.queries += 1; s.solver_time += time.time() - t0
@@ -785,6 +786,18 @@ class Engine:
             lo = z3.Extract(b - 1, 0, r2)
             ovc = ext(b, lo) != r2
             s.finish_call(st, fr, I, [simp(lo), simp(z3.If(ovc, z3.BitVecVal(1, 1), z3.BitVecVal(0, 1)))]); return None
+        m2 = re.match(r'(u|s)(add|sub)\.sat\.i(\d+)', base)
+        if m2:
+            sg, o, b = m2.group(1), m2.group(2), int(m2.group(3))
+            a, c = A[0], A[1]
+            if sg == 'u':
+                if not is_sym(a) and not is_sym(c):
+                    r = min(a + c, (1 << b) - 1) if o == 'add' else max(a - c, 0)
+                else:
+                    aa, cc = bv(a, b), bv(c, b)
+                    r = simp(z3.If(z3.ULT(aa + cc, aa), z3.BitVecVal((1 << b) - 1, b), aa + cc)) if o == 'add' else simp(z3.If(z3.ULT(aa, cc), z3.BitVecVal(0, b), aa - cc))
+                s.finish_call(st, fr, I, r); return None
+            raise Unsupported('intrinsic ' + base)
         if base.startswith('trap'):
             raise Violation('trap', 'llvm.trap in %s' % fr.fn['name'])
         if base.startswith('expect'):
@@ -1034,6 +1047,13 @@ def install_string_stubs(E):
     PFX = '_ZNSt7__cxx1112basic_stringIcSt11char_traitsIcESaIcEE'
     def assign_c(E, st, fr, I, A): s_set(E, st, A[0], cstr(E, st, A[1])); return A[0]
     S[PFX + 'aSEPKc'] = assign_c; S[PFX + '6assignEPKc'] = assign_c
+    def move_assign(E, st, fr, I, A):
+        if A[0] != A[1]: s_set(E, st, A[0], s_bytes(E, st, A[1])); s_set(E, st, A[1], [])
+        return A[0]
+    S[PFX + 'aSEOS4_'] = move_assign
+    def swap_s(E, st, fr, I, A):
+        a = s_bytes(E, st, A[0]); b = s_bytes(E, st, A[1]); s_set(E, st, A[0], b); s_set(E, st, A[1], a); return None
+    S[PFX + '4swapERS4_'] = swap_s
     def append_c(E, st, fr, I, A): s_set(E, st, A[0], s_bytes(E, st, A[0]) + cstr(E, st, A[1])); return A[0]
     S[PFX + '6appendEPKc'] = append_c; S[PFX + 'pLEPKc'] = append_c
     def append_s(E, st, fr, I, A): s_set(E, st, A[0], s_bytes(E, st, A[0]) + s_bytes(E, st, A[1])); return A[0]
